@@ -70,15 +70,65 @@ func travValueObligations(c *Ctx) []Obligation {
 						Detail: "[value] blank receiver: the method does not depend on the value by declaration"})
 					continue
 				}
+				// fields of the struct selected in the method, and in the functions of the package the
+				// value (or a pointer to it) is handed to (Display → displayRange(self))
 				reads := map[string]bool{}
-				ast.Inspect(fd.Body, func(x ast.Node) bool {
-					if se, ok := x.(*ast.SelectorExpr); ok {
-						if sel := p.TypesInfo.Selections[se]; sel != nil && sel.Kind() == types.FieldVal && travNamed(sel.Recv()) == n {
-							reads[se.Sel.Name] = true
-						}
+				seenFd := map[*ast.FuncDecl]bool{}
+				var collect func(body *ast.FuncDecl, depth int)
+				collect = func(cur *ast.FuncDecl, depth int) {
+					if cur == nil || cur.Body == nil || seenFd[cur] || depth > 3 {
+						return
 					}
-					return true
-				})
+					seenFd[cur] = true
+					ast.Inspect(cur.Body, func(x ast.Node) bool {
+						switch y := x.(type) {
+						case *ast.SelectorExpr:
+							if sel := p.TypesInfo.Selections[y]; sel != nil && sel.Kind() == types.FieldVal && travNamed(sel.Recv()) == n {
+								reads[y.Sel.Name] = true
+							}
+						case *ast.CallExpr:
+							callee := CalleeOf(p.TypesInfo, y)
+							if callee == nil || callee.Pkg() != p.Types {
+								return true
+							}
+							carries := false
+							exprs := y.Args
+							if se, ok := ast.Unparen(y.Fun).(*ast.SelectorExpr); ok {
+								if sel := p.TypesInfo.Selections[se]; sel != nil && sel.Kind() == types.MethodVal {
+									exprs = append([]ast.Expr{se.X}, y.Args...)
+								}
+							}
+							for _, a := range exprs {
+								if t := p.TypesInfo.TypeOf(a); t != nil && travNamed(t) == n {
+									carries = true
+								}
+							}
+							if carries {
+								// not a shape test of the value (IsSome(): `return self.Inner != nil` does not look at the
+								// payload), and for Display only a function that produces text
+								cd := travValueDecl(p, callee)
+								if cd == nil || travShapeTest(p.TypesInfo, cd) != "" {
+									return true
+								}
+								if mname == "Display" {
+									text := false
+									rs := callee.Type().(*types.Signature).Results()
+									for k := 0; k < rs.Len(); k++ {
+										if travIsStringType(rs.At(k).Type()) {
+											text = true
+										}
+									}
+									if !text {
+										return true
+									}
+								}
+								collect(cd, depth+1)
+							}
+						}
+						return true
+					})
+				}
+				collect(fd, 0)
 				for i := 0; i < st.NumFields(); i++ {
 					f := st.Field(i)
 					why, isPayload := payload[n][f.Name()]
@@ -101,6 +151,16 @@ func travValueObligations(c *Ctx) []Obligation {
 		}
 	}
 	return obs
+}
+
+// travValueDecl: the declaration of a function / method of the package.
+func travValueDecl(p *packages.Package, fn *types.Func) *ast.FuncDecl {
+	for _, fd := range AllFuncDecls(p) {
+		if p.TypesInfo.Defs[fd.Name] == fn {
+			return fd
+		}
+	}
+	return nil
 }
 
 // travValuePayload: struct -> field -> witness, for fields a constructor
